@@ -66,7 +66,7 @@ theorem fromRouteRule_eq (q : Req) (draw : Rule → Nat) (r : Rule) :
         | none =>
           cases r.headerFilters <;> cases r.responseStatusCodes <;> simp
         | some t =>
-          by_cases ht : t.isEmpty
+          by_cases ht : emptyTarget t
           · cases r.headerFilters <;> cases r.responseStatusCodes <;> simp [ht]
           · cases r.headerFilters <;> cases r.responseStatusCodes <;> simp [ht]
       · -- body filters
@@ -250,7 +250,7 @@ theorem dedupLast_of_nodup (l : List RuleId) (h : l.Nodup) : dedupLast l = l := 
   | cons x xs ih =>
     rw [List.nodup_cons] at h
     have : xs.contains x = false := by simpa using h.1
-    simp [dedupLast, this, ih h.2]
+    simp only [dedupLast, this, ih h.2, Bool.false_eq_true, if_false]
 
 theorem mem_dedupLast (l : List RuleId) (x : RuleId) : x ∈ dedupLast l ↔ x ∈ l := by
   induction l with
@@ -312,8 +312,11 @@ theorem foldl_status_filter (s : Option StatusCodeUpdate) (C : List Rule) :
   | cons r rs ih =>
     simp only [List.foldl_cons, List.filter_cons]
     cases h : carriesStatus r
-    · simp [statusOf, h, mergeStatus, ih]
-    · simp [ih]
+    · have : mergeStatus s (statusOf r) = s := by simp [statusOf, h, mergeStatus]
+      simp only [this, Bool.false_eq_true, if_false]
+      exact ih s
+    · simp only [if_true, List.foldl_cons]
+      exact ih _
 
 theorem foldl_log_filter (s : Option LogOverride) (C : List Rule) :
     C.foldl (fun s r => mergeLog s (logOf r)) s =
@@ -323,22 +326,144 @@ theorem foldl_log_filter (s : Option LogOverride) (C : List Rule) :
   | cons r rs ih =>
     simp only [List.foldl_cons, List.filter_cons]
     cases h : carriesLog r
-    · simp [logOf, h, mergeLog, ih]
-    · simp [ih]
+    · have : mergeLog s (logOf r) = s := by simp [logOf, h, mergeLog]
+      simp only [this, Bool.false_eq_true, if_false]
+      exact ih s
+    · simp only [if_true, List.foldl_cons]
+      exact ih _
 
-/-- Whatever was accumulated, merging a carrying rule `p` yields `p`'s update with some fallback. -/
-theorem mergeStatus_carrying (s : Option StatusCodeUpdate) (p : Rule) (hp : carriesStatus p = true) :
-    ∃ fb, mergeStatus s (statusOf p) = some (statusUpdateOf p fb) := by
-  simp only [statusOf, hp, if_true]
+/-- The fallback the specification assigns to primary `p` preceded by `q`. -/
+def fbOf (q p : Rule) : Option Rule := if unconditional q && !unconditional p then some q else none
+
+/-- Whatever was accumulated, merging a carrying rule `q` leaves an update that shows `q`'s code,
+code list and id. -/
+theorem mergeStatus_carrying (s : Option StatusCodeUpdate) (q : Rule) (hq : carriesStatus q = true) :
+    ∃ u, mergeStatus s (statusOf q) = some u ∧ u.onResponseStatusCodes = codesOf q ∧
+      u.statusCode = q.statusCode.getD 0 ∧ u.ruleId = some q.id := by
+  simp only [statusOf, hq, if_true]
   cases s with
-  | none => exact ⟨none, rfl⟩
+  | none => exact ⟨_, rfl, rfl, rfl, rfl⟩
   | some old =>
     simp only [mergeStatus]
     split
-    · exact ⟨none, rfl⟩
-    · -- the fallback branch: the "rule" it names is irrelevant here, only the shape matters
-      refine ⟨some { p with statusCode := some old.statusCode,
-                             id := match old.ruleId with | some i => i | none => [] }, ?_⟩
-      sorry
+    · exact ⟨_, rfl, rfl, rfl, rfl⟩
+    · exact ⟨_, rfl, rfl, rfl, rfl⟩
+
+theorem mergeStatus_over (u : StatusCodeUpdate) (q p : Rule) (hp : carriesStatus p = true)
+    (h1 : u.onResponseStatusCodes = codesOf q) (h2 : u.statusCode = q.statusCode.getD 0)
+    (h3 : u.ruleId = some q.id) :
+    mergeStatus (some u) (statusOf p) = some (statusUpdateOf p (fbOf q p)) := by
+  simp only [statusOf, hp, if_true, mergeStatus, fbOf, unconditional, h1]
+  by_cases hq : codesOf q = []
+  · by_cases hpc : codesOf p = []
+    · simp [statusUpdateOf, hpc, hq]
+    · simp [statusUpdateOf, hpc, hq, h2, h3]
+  · simp [statusUpdateOf, hq]
+
+theorem status_closed (L : List Rule) (hL : ∀ r ∈ L, carriesStatus r = true) :
+    L.foldl (fun s r => mergeStatus s (statusOf r)) none =
+      match L.reverse with
+      | [] => none
+      | [p] => some (statusUpdateOf p none)
+      | p :: q :: _ => some (statusUpdateOf p (fbOf q p)) := by
+  have hrev : L = L.reverse.reverse := by simp
+  generalize hR : L.reverse = R at hrev
+  subst hrev
+  match R, hL with
+  | [], _ => rfl
+  | [p], hL =>
+    have hp := hL p (by simp)
+    simp [statusOf, hp, mergeStatus]
+  | p :: q :: t, hL =>
+    have hp := hL p (by simp)
+    have hq := hL q (by simp)
+    simp only [List.reverse_cons, List.append_assoc, List.foldl_append, List.foldl_cons,
+      List.foldl_nil, List.nil_append]
+    obtain ⟨u, hu, h1, h2, h3⟩ :=
+      mergeStatus_carrying (t.reverse.foldl (fun s r => mergeStatus s (statusOf r)) none) q hq
+    rw [hu, mergeStatus_over u q p hp h1 h2 h3]
+
+theorem mergeLog_carrying (s : Option LogOverride) (q : Rule) (hq : carriesLog q = true) :
+    ∃ u, mergeLog s (logOf q) = some u ∧ u.onResponseStatusCodes = codesOf q ∧
+      u.logOverride = q.logOverride.getD false ∧ u.ruleId = some q.id ∧
+      (codesOf q = [] → u.unitId = q.configurationLogUnitId) := by
+  simp only [logOf, hq, if_true]
+  cases s with
+  | none => exact ⟨_, rfl, rfl, rfl, rfl, fun _ => rfl⟩
+  | some old =>
+    simp only [mergeLog]
+    split
+    · exact ⟨_, rfl, rfl, rfl, rfl, fun _ => rfl⟩
+    · rename_i h
+      refine ⟨_, rfl, rfl, rfl, rfl, fun e => ?_⟩
+      simp [logOverrideOf, e] at h
+
+theorem mergeLog_over (u : LogOverride) (q p : Rule) (hp : carriesLog p = true)
+    (h1 : u.onResponseStatusCodes = codesOf q) (h2 : u.logOverride = q.logOverride.getD false)
+    (h3 : u.ruleId = some q.id) (h4 : codesOf q = [] → u.unitId = q.configurationLogUnitId) :
+    mergeLog (some u) (logOf p) = some (logOverrideOf p (fbOf q p)) := by
+  simp only [logOf, hp, if_true, mergeLog, fbOf, unconditional, h1]
+  by_cases hq : codesOf q = []
+  · by_cases hpc : codesOf p = []
+    · simp [logOverrideOf, hpc, hq]
+    · simp [logOverrideOf, hpc, hq, h2, h3, h4 hq]
+  · simp [logOverrideOf, hq]
+
+theorem log_closed (L : List Rule) (hL : ∀ r ∈ L, carriesLog r = true) :
+    L.foldl (fun s r => mergeLog s (logOf r)) none =
+      match L.reverse with
+      | [] => none
+      | [p] => some (logOverrideOf p none)
+      | p :: q :: _ => some (logOverrideOf p (fbOf q p)) := by
+  have hrev : L = L.reverse.reverse := by simp
+  generalize hR : L.reverse = R at hrev
+  subst hrev
+  match R, hL with
+  | [], _ => rfl
+  | [p], hL =>
+    have hp := hL p (by simp)
+    simp [logOf, hp, mergeLog]
+  | p :: q :: t, hL =>
+    have hp := hL p (by simp)
+    have hq := hL q (by simp)
+    simp only [List.reverse_cons, List.append_assoc, List.foldl_append, List.foldl_cons,
+      List.foldl_nil, List.nil_append]
+    obtain ⟨u, hu, h1, h2, h3, h4⟩ :=
+      mergeLog_carrying (t.reverse.foldl (fun s r => mergeLog s (logOf r)) none) q hq
+    rw [hu, mergeLog_over u q p hp h1 h2 h3 h4]
+
+/-! ### the closed form of the whole fold -/
+
+theorem foldM_eq_spec (q : Req) (C : List Rule) : foldM q Action.empty C = Spec.action q C := by
+  have hs := foldM_status q Action.empty C
+  have hl := foldM_log q Action.empty C
+  have e1 : Action.empty.statusCodeUpdate = none := rfl
+  have e2 : Action.empty.logOverride = none := rfl
+  rw [e1] at hs
+  rw [e2] at hl
+  rw [foldl_status_filter, status_closed _ (fun r hr => (List.mem_filter.mp hr).2)] at hs
+  rw [foldl_log_filter, log_closed _ (fun r hr => (List.mem_filter.mp hr).2)] at hl
+  have e : foldM q Action.empty C =
+      ⟨(foldM q Action.empty C).statusCodeUpdate, (foldM q Action.empty C).headerFilters,
+       (foldM q Action.empty C).bodyFilters, (foldM q Action.empty C).ruleIds,
+       (foldM q Action.empty C).ruleTraces, (foldM q Action.empty C).rulesApplied,
+       (foldM q Action.empty C).logOverride⟩ := rfl
+  rw [e, hs, hl, foldM_headerFilters, foldM_bodyFilters, foldM_ruleTraces, foldM_rulesApplied,
+    foldM_ruleIds]
+  simp only [Action.empty, List.nil_append, foldl_lhsInsert_nil, Spec.action, primaryFallback]
+  congr 1
+  · cases (C.filter carriesStatus).reverse with
+    | nil => rfl
+    | cons p t => cases t <;> simp [fbOf]
+  · cases (C.filter carriesLog).reverse with
+    | nil => rfl
+    | cons p t => cases t <;> simp [fbOf]
+
+/-- The fold of `from_routes_rule` over ANY list (sorted or not) is the specification's action over the
+contributing rules of that list. -/
+theorem foldRoutes_eq_spec (q : Req) (draw : Rule → Nat) (S : List Rule) :
+    foldRoutes q draw Action.empty S = Spec.action q (contributing q draw S) := by
+  rw [foldRoutes_eq_foldE, foldE_eq_foldR, foldR_empty, foldM_eq_spec]
+  rfl
 
 end Rio.Action
